@@ -417,8 +417,12 @@ def _norm_float(v):
     return {"$float": repr(float(v["$float"]))}
 
 
+CONFUSABLE_STRINGS = ["true", "false", "True", "False", "null", "None", "0", "1", "-1", "1.0", "1e3", "NaN", "Infinity",
+                      "[]", "{}", "[1]", "\"q\"", "abstract", "value", "name"]
+
+
 def json_scalars(strs):
-    return st.one_of(st.none(), st.booleans(), st.integers(-10**12, 10**12),
+    return st.one_of(st.sampled_from(CONFUSABLE_STRINGS), st.none(), st.booleans(), st.integers(-10**12, 10**12),
                      st.sampled_from([0, 1, -1, 2**63, -2**70]), plain_floats(), strs,
                      st.sampled_from([0, False, "", {"$float": "0.0"}]))
 
@@ -538,7 +542,8 @@ def uvl_strings():
 
 def uvl_values():
     scalars = st.one_of(st.none(), st.booleans(), st.integers(-10**9, 10**9), st.sampled_from([0, 1, -1, 2**70]),
-                        plain_floats(), uvl_strings(), st.sampled_from(["true", "0", "abstract", "a b"]))
+                        plain_floats(), uvl_strings(), st.sampled_from(["true", "0", "abstract", "a b"]),
+                        st.sampled_from([c for c in CONFUSABLE_STRINGS if "." not in c and "'" not in c]))
     inner = st.one_of(st.booleans(), st.integers(-1000, 1000), plain_floats(), uvl_strings())
     keys = st.one_of(ident_names(5), st.sampled_from(["a b", "1k", "or"]))
     return st.one_of(scalars, scalars,
